@@ -386,10 +386,12 @@ def digest(obj):
     return hashlib.sha1(json.dumps(obj, sort_keys=True).encode()).hexdigest()[:16]
 
 
-def write_replay(pid, v, mod):
+def write_replay(pid, v, mod, shard=None):
     d = os.path.join(VERIF, "replays", pid)
     os.makedirs(d, exist_ok=True)
     body = {"property": pid, "key": v["key"], "reason": v["reason"], "case": v["case"]}
+    if shard is not None:
+        body["shard"] = enc(shard)  # the cases that ran before it in the same process, should the failure depend on them
     if hasattr(mod, "snippet"):
         try:
             body["snippet"] = mod.snippet(dec(v["case"]))
@@ -409,6 +411,23 @@ def replay_file(pid, path):
         body = json.load(f)
     case = dec(body["case"])
     out = mod.replay(case)
+    if out is None and body.get("shard") is not None and hasattr(mod, "run_shard"):
+        # The case passes on its own.  Results must not depend on earlier calls either: re-run the cases of its
+        # shard in order in this fresh process; if the same violation reappears it is real (hidden state in the
+        # library carried from one call to the next), and deterministic.
+        try:
+            res = mod.run_shard(dec(body["shard"]))
+        except TooMany as e:
+            res = e.args[0]
+        res = res.result() if isinstance(res, Acc) else res
+        hit = [v for v in res["viol"] if v["key"] == body["key"]]
+        same = [v for v in hit if v["case"] == body["case"]]
+        if hit:
+            v = (same or hit)[0]
+            print("REPLAY-VIOLATION property=%s key=%s" % (pid, v["key"]))
+            print("  reason: %s" % (v["reason"],))
+            print("  note: passes when executed alone; fails after the preceding cases of its shard ran in the same process")
+            return 1
     if out is None:
         print("REPLAY-OK property=%s" % pid)
         return 0
@@ -426,7 +445,7 @@ def confirm(pid, path):
         env["PYTHONHASHSEED"] = "0"
         p = subprocess.run(
             [sys.executable, "-m", "mc.cli", pid, "--replay", path],
-            cwd=VERIF, env=env, capture_output=True, text=True, timeout=900,
+            cwd=VERIF, env=env, capture_output=True, text=True, timeout=3600,
         )
         outs.append((p.returncode, p.stdout.split("\n")[0]))
         if p.returncode not in (0, 1):
@@ -502,7 +521,7 @@ def run_check(pid, tier, seed, workers=None):
         print("KNOWN-FINDING: property=%s %s" % (pid, k["what"]))
     status = 0
     for v in unknown[:3]:
-        path = write_replay(pid, v, mod)
+        path = write_replay(pid, v, mod, shards[v["shard"]] if 0 <= v.get("shard", -1) < len(shards) else None)
         outs = confirm(pid, path)
         if outs[0] != outs[1] or outs[0][0] != 1 or ("key=%s" % v["key"]) not in outs[0][1]:
             print("NONDETERMINISM property=%s replay=%s explorer-key=%s fresh-process=%r"
